@@ -78,7 +78,7 @@ Proof.
   - (* ITupleAccess *) rewrite exec_S_ITupleAccess. apply with_val_keeps; [apply IH; exact Hi|].
     intros st1 v. destruct v; try reflexivity. destruct (nth_error vs k); reflexivity.
   - (* ITypeFilter *) rewrite exec_S_ITypeFilter. apply with_val_keeps; [apply IH; exact Hi|].
-    intros st1 v. destruct (of_type t); [|reflexivity]. destruct (alloc_fun st1 _). reflexivity.
+    intros st1 v. destruct (alloc_default t st1) as [[d st2]|]; [|reflexivity]. destruct (alloc_fun st2 _). reflexivity.
   - reflexivity.
   - (* IBin *) destruct Hi as [Ha Hb].
     destruct (binop_eq_dec op And) as [->|NA].
